@@ -97,14 +97,36 @@ char *strdup(const char *s)
     return r;
 }
 
-/* ---- memmove -------------------------------------------------------------------
- * cbmc's own memmove model (symbolic length, overlapping regions of one object) exhausts memory on
- * SAT and times out on z3 in the prepend/trim units.  This model is an OVER-APPROXIMATION: both
- * regions are checked exactly as the built-in model checks them, the destination region then holds
- * ARBITRARY bytes except at the relative positions 0, n-1, n-2 and the ghost positions vg_k, vg_k2,
- * which hold the bytes the source held BEFORE the call (overlap-safe).  The real memmove preserves
- * more, so whatever is proved against this model holds for the real one; because vg_k / vg_k2 are
- * arbitrary, "byte vg_k is moved" is the universally quantified statement. */
+/* ---- memmove / memcpy -------------------------------------------------------------
+ * cbmc's own memmove model (symbolic length, overlapping regions of one object) and chains of several
+ * memcpy calls (splice) exhaust memory / time on every back end.  Units that define VSTR_OWN_MEMMOVE /
+ * VSTR_OWN_MEMCPY use this model instead.  It is an OVER-APPROXIMATION: both regions are checked exactly as
+ * the built-in models check them (memcpy additionally: no overlap), the destination region then holds
+ * ARBITRARY bytes except at the relative positions
+ *      0, n-1, n-2, vg_k, vg_k2, n-2-vg_k        (those that are < n)
+ * which hold the bytes the source held BEFORE the call (overlap-safe).  The real functions preserve more, so
+ * whatever is proved against this model holds for them; because vg_k / vg_k2 are arbitrary, "byte vg_k is
+ * moved" is the universally quantified statement. */
+/* a unit may select the instances it needs (fewer = smaller formula, still an over-approximation):
+ * -DVSTR_INST=<bit mask>  1: 0   2: n-1   4: n-2   8: vg_k   16: vg_k2   32: n-2-vg_k     default: all */
+#ifndef VSTR_INST
+# define VSTR_INST 63
+#endif
+static void vstr_copy_instances(char *d, const char *s, size_t n)
+{
+    if (n > 0) {
+        size_t i0 = (vg_k < n) ? vg_k : 0, i1 = (vg_k2 < n) ? vg_k2 : 0, i2 = n - 1, i3 = (n >= 2) ? n - 2 : 0;
+        size_t i4 = (n >= 2 && vg_k <= n - 2) ? n - 2 - vg_k : 0;
+        char b = s[0], b0 = s[i0], b1 = s[i1], b2 = s[i2], b3 = s[i3], b4 = s[i4];
+        __CPROVER_havoc_slice(d, n);
+        if (VSTR_INST & 1) d[0] = b;
+        if (VSTR_INST & 8) d[i0] = b0;
+        if (VSTR_INST & 16) d[i1] = b1;
+        if (VSTR_INST & 2) d[i2] = b2;
+        if (VSTR_INST & 4) d[i3] = b3;
+        if (VSTR_INST & 32) d[i4] = b4;
+    }
+}
 #ifdef VSTR_OWN_MEMMOVE
 void *memmove(void *dst, const void *src, size_t n)
 {
@@ -112,14 +134,20 @@ void *memmove(void *dst, const void *src, size_t n)
     __CPROVER_assert(n == 0 || __CPROVER_w_ok(dst, n), "memmove destination region writeable");
     /* a failed check above is reported; what follows models the valid calls only */
     __CPROVER_assume(n == 0 || (__CPROVER_r_ok(src, n) && __CPROVER_w_ok(dst, n)));
-    if (n > 0) {
-        const char *s = (const char *) src;
-        char *d = (char *) dst;
-        size_t i0 = (vg_k < n) ? vg_k : 0, i1 = (vg_k2 < n) ? vg_k2 : 0, i2 = n - 1, i3 = (n >= 2) ? n - 2 : 0;
-        char b = s[0], b0 = s[i0], b1 = s[i1], b2 = s[i2], b3 = s[i3];
-        __CPROVER_havoc_slice(d, n);
-        d[0] = b; d[i0] = b0; d[i1] = b1; d[i2] = b2; d[i3] = b3;
-    }
+    vstr_copy_instances((char *) dst, (const char *) src, n);
+    return dst;
+}
+#endif
+#ifdef VSTR_OWN_MEMCPY
+void *memcpy(void *dst, const void *src, size_t n)
+{
+    __CPROVER_assert(n == 0 || __CPROVER_r_ok(src, n), "memcpy source region readable");
+    __CPROVER_assert(n == 0 || __CPROVER_w_ok(dst, n), "memcpy destination region writeable");
+    __CPROVER_assert(n == 0 || !__CPROVER_same_object(dst, src) ||
+                     __CPROVER_POINTER_OFFSET(dst) >= __CPROVER_POINTER_OFFSET(src) + n ||
+                     __CPROVER_POINTER_OFFSET(src) >= __CPROVER_POINTER_OFFSET(dst) + n, "memcpy src/dst overlap");
+    __CPROVER_assume(n == 0 || (__CPROVER_r_ok(src, n) && __CPROVER_w_ok(dst, n)));
+    vstr_copy_instances((char *) dst, (const char *) src, n);
     return dst;
 }
 #endif
@@ -144,7 +172,11 @@ void *realloc(void *p, size_t n)
     if (n < m) m = n;
     if (m > 0) {
         size_t i0 = (vg_k < m) ? vg_k : 0, i1 = (vg_k2 < m) ? vg_k2 : 0, i2 = m - 1, i3 = (m >= 2) ? m - 2 : 0;
-        r[0] = o[0]; r[i0] = o[i0]; r[i1] = o[i1]; r[i2] = o[i2]; r[i3] = o[i3];
+        if (VSTR_INST & 1) r[0] = o[0];
+        if (VSTR_INST & 8) r[i0] = o[i0];
+        if (VSTR_INST & 16) r[i1] = o[i1];
+        if (VSTR_INST & 2) r[i2] = o[i2];
+        if (VSTR_INST & 4) r[i3] = o[i3];
     }
     free(p);
     return r;
